@@ -1,5 +1,6 @@
 import GoRes.Model.Req
 import GoRes.Lemmas.Req
+import GoRes.Generated.Facts
 /-! # C08 — events apply, publish and notify in order; failed applies publish nothing -/
 namespace GoRes.Props.C08
 open GoRes GoRes.Req
@@ -130,6 +131,11 @@ registration order -/
 theorem listeners_in_order (cfg : HCfg) (name : Str) :
     listenersOf cfg name = (List.range cfg.listeners).map (fun i => Eff.listener i name) := by
   rfl
+
+/-- the reserved event names of the model are exactly the ones `Resource.Event` refuses in the
+current source (regenerated on every run) -/
+theorem reserved_names_match : Generated.reservedEvents = reserved := by
+  decide +kernel
 
 /-! ## non-vacuity -/
 example : eventShape .ok "add" [1] [2] [.listener 0 [3]] = [.apply "add", .pub [1] [2], .listener 0 [3]] := by decide
